@@ -9,6 +9,7 @@ import (
 	"fmt"
 	"os"
 	"path/filepath"
+	"regexp"
 	"sort"
 	"time"
 
@@ -43,15 +44,27 @@ type Ctx struct {
 	T      *vp.Trace
 	Rep    *Report
 	Replay string // replay file to re-run instead of generating
+	vcount map[string]int
 }
 
 func (c *Ctx) Thorough() bool { return c.Tier == "thorough" }
 
+var digitRe = regexp.MustCompile(`[0-9]+`)
+
 func (c *Ctx) Violate(what string, replay interface{}) {
-	if len(c.Rep.Violations) < 50 {
+	// keep at most 3 reports of the same shape (numbers abstracted) so that one recurring
+	// finding cannot crowd out a different one
+	key := digitRe.ReplaceAllString(what, "N")
+	if c.vcount == nil {
+		c.vcount = map[string]int{}
+	}
+	c.vcount[key]++
+	if c.vcount[key] <= 3 && len(c.Rep.Violations) < 300 {
 		c.Rep.Violations = append(c.Rep.Violations, Violation{what, replay})
 	}
-	fmt.Printf("ORACLE-VIOLATION %s: %s\n", c.Rep.Property, what)
+	if c.vcount[key] <= 5 {
+		fmt.Printf("ORACLE-VIOLATION %s: %s\n", c.Rep.Property, what)
+	}
 }
 
 // Class registers a case under an abstraction class; nontrivial classes count towards distinct_nontrivial.
